@@ -52,13 +52,19 @@ RemoveAllow(s, l, k) ==
   ELSE Ok([s EXCEPT !.allow = r.set])
 
 InvOf(s, h) == {e \in s.inv : e.h = h}
-AddInvoice(s, h, v) ==
+\* k.maxInvoices > 0: the policy's bound on the table of approved invoices / keysends (a run with a tiny bound;
+\* 0 = the default policy's bound, never reached by this alphabet).  The bound is tested BEFORE the table is
+\* consulted, so once the table is full even the repetition of an approved invoice is refused.
+TableFull(s, k) == "maxInvoices" \in DOMAIN k /\ k.maxInvoices > 0 /\ Cardinality({e.h : e \in s.inv}) >= k.maxInvoices
+AddInvoice(s, h, v, k) ==
   IF v = "old" THEN Err(s)                                   \* validate_invoice: expired
+  ELSE IF TableFull(s, k) THEN Err(s)                        \* "too many invoices"
   ELSE IF InvOf(s, h) # {} THEN
          (IF [h |-> h, v |-> v, ks |-> FALSE] \in s.inv THEN OkFlag(s, TRUE) ELSE Err(s))
   ELSE OkFlag([s EXCEPT !.inv = @ \cup {[h |-> h, v |-> v, ks |-> FALSE]}], TRUE)
-AddKeysend(s, h, v) ==
-  IF InvOf(s, h) # {} THEN
+AddKeysend(s, h, v, k) ==
+  IF TableFull(s, k) THEN Err(s)
+  ELSE IF InvOf(s, h) # {} THEN
          (IF [h |-> h, v |-> v, ks |-> TRUE] \in s.inv THEN OkFlag(s, TRUE) ELSE Err(s))
   ELSE OkFlag([s EXCEPT !.inv = @ \cup {[h |-> h, v |-> v, ks |-> TRUE]}], TRUE)
 
@@ -109,8 +115,8 @@ Step(s, r, k) ==
   CASE r.op = "AddAllow"    -> AddAllow(s, r.l, k)
     [] r.op = "SetAllow"    -> SetAllow(s, r.l, k)
     [] r.op = "RemoveAllow" -> RemoveAllow(s, r.l, k)
-    [] r.op = "AddInvoice"  -> AddInvoice(s, r.h, r.v)
-    [] r.op = "AddKeysend"  -> AddKeysend(s, r.h, r.v)
+    [] r.op = "AddInvoice"  -> AddInvoice(s, r.h, r.v, k)
+    [] r.op = "AddKeysend"  -> AddKeysend(s, r.h, r.v, k)
     [] r.op = "NewChannel"  -> NewChannel(s, r.d)
     [] r.op = "Setup"       -> Setup(s, r.d)
     [] r.op = "Forget"      -> Forget(s, r.d)
@@ -156,13 +162,13 @@ HPreapproveInvoice(s, h, v, k) ==
   IF InvOf(s, h) # {} THEN
          (IF [h |-> h, v |-> v, ks |-> FALSE] \in s.inv THEN OkFlag(s, TRUE) ELSE Err(s))
   ELSE IF ~k.approve THEN OkFlag(s, FALSE)
-  ELSE AddInvoice(s, h, v)
+  ELSE AddInvoice(s, h, v, k)
 \* PreapproveKeysend -> Approve::handle_proposed_keysend, same structure
 HPreapproveKeysend(s, h, v, k) ==
   IF InvOf(s, h) # {} THEN
          (IF [h |-> h, v |-> v, ks |-> TRUE] \in s.inv THEN OkFlag(s, TRUE) ELSE Err(s))
   ELSE IF ~k.approve THEN OkFlag(s, FALSE)
-  ELSE AddKeysend(s, h, v)
+  ELSE AddKeysend(s, h, v, k)
 \* SetupChannel on the ChannelHandler of (peer, d), then - once - ValidateCommitmentTx2(0), which for protocol
 \* version >= 5 is validate_holder_commitment_tx_phase2 + activate_initial_commitment: what Setup stands for
 HSetup(s, d) == Setup(s, d)
